@@ -244,9 +244,12 @@ class WSchema(World):
           "recalcDeps": ["L", col_ref(doc, 'People', 'age')]}]]))
     if people and not self.reduced:
       # the second schema doc action of ONE user action fails (in rebuild_usercode: keyword)
-      A(("FAIL docactions addcol then addcol keyword", [["ApplyDocActions", [
-          ["AddColumn", "People", "zz", {"type": "Int", "isFormula": False, "formula": ""}],
-          ["AddColumn", "People", "class", {"type": "Int", "isFormula": False, "formula": ""}]]]]))
+      # (preceded by a record edit, which must be reverted too)
+      A(("FAIL docactions addcol then addcol keyword", [
+          ["UpdateRecord", "People", P[0] if P else 1, {"name": "changed"}],
+          ["ApplyDocActions", [
+              ["AddColumn", "People", "zz", {"type": "Int", "isFormula": False, "formula": ""}],
+              ["AddColumn", "People", "class", {"type": "Int", "isFormula": False, "formula": ""}]]]]))
       A(("FAIL remcol missing", [["RemoveColumn", "People", "nope"]]))
       A(("FAIL add then bad", [["AddColumn", "People", "tmpc", {"type": "Int", "isFormula": False}],
                                ["RemoveColumn", "People", "nope"]]))
@@ -275,6 +278,18 @@ def _sum_of_sum(doc):
   return [["CreateViewSection", tref, 0, "record", [k], None]]
 
 
+def _sum_ref_display(doc):
+  # A Ref into a summary table shown through a display helper column: removing the summary
+  # table's last widget auto-removes the table (round 1), which clears the display column of the
+  # referring column, whose helper must then be auto-removed too (round 2).
+  return [["AddColumn", "Other", "sref", {"type": "Ref:Src_summary_k", "isFormula": False}]]
+
+
+def _sum_ref_display2(doc):
+  return [["SetDisplayFormula", "Other", None, col_ref(doc, 'Other', 'sref'), "$sref.count"],
+          ["UpdateRecord", "Other", 1, {"sref": 1}]]
+
+
 SUM_SETUP = [
     [["AddTable", "Other", [{"id": "label", "type": "Text"}]]],
     [["AddTable", "Src", [
@@ -289,7 +304,8 @@ SUM_SETUP = [
          "k": ["a", "a", "b"], "kl": [["L", "x", "y"], ["L", "x"], None],
          "r": [1, 2, 0], "rl": [["L", 1, 2], None, ["L", 2]], "n": [1, 2, 3]}]],
     _sum_sections,
-    _sum_of_sum,
+    _sum_ref_display,
+    _sum_ref_display2,
 ]
 
 
@@ -405,6 +421,36 @@ class WSum(World):
       A(("remtable Other", [["RemoveTable", "Other"]]))
     if 'Src' in doc.eng.tables and not self.reduced:
       A(("remtable Src", [["RemoveTable", "Src"]]))
+    return out
+
+
+class WSumSum(World):
+  """
+  Summary OF a summary table (Src -> Src_summary_k_rl -> ..._summary_k): removals in the second
+  level are caused by auto-removals in the first.  Record edits only, plus one rename of the
+  group-by source, after which exploration stops: the rename does not cascade to second-level
+  summaries on the pinned tree (a recorded finding), and everything after it would repeat it.
+  """
+  name = 'W_sumsum'
+  setup = SUM_SETUP[:3] + [_sum_sections, _sum_of_sum]
+
+  def alphabet(self, doc):
+    out = []
+    A = out.append
+    if not has_col(doc, 'Src', 'k'):
+      return out
+    S = rows(doc, 'Src')
+    for r in S[:3]:
+      A(("upd S%d k=b" % r, [["UpdateRecord", "Src", r, {"k": "b"}]]))
+      A(("upd S%d k=c" % r, [["UpdateRecord", "Src", r, {"k": "c"}]]))
+      A(("upd S%d rl=[2]" % r, [["UpdateRecord", "Src", r, {"rl": ["L", 2]}]]))
+      A(("upd S%d rl=None" % r, [["UpdateRecord", "Src", r, {"rl": None}]]))
+      A(("rem S%d" % r, [["RemoveRecord", "Src", r]]))
+    if len(S) >= 2:
+      A(("bulkupd S k", [["BulkUpdateRecord", "Src", S[:2], {"k": ["b", "c"]}]]))
+      A(("bulkrem S", [["BulkRemoveRecord", "Src", S[:2]]]))
+    A(("add S", [["AddRecord", "Src", None, {"k": "c", "rl": ["L", 1]}]]))
+    A(("rencol S.k->kind", [["RenameColumn", "Src", "k", "kind"]]))
     return out
 
 
@@ -738,7 +784,7 @@ class WLook(World):
 # --------------------------------------------------------------------------------------------
 
 ALL = {'W_rec': WRec, 'W_schema': WSchema, 'W_sum': WSum, 'W_2way': W2Way, 'W_trig': WTrig,
-       'W_look': WLook}
+       'W_look': WLook, 'W_sumsum': WSumSum}
 
 
 def make(names):
